@@ -404,6 +404,7 @@ pub fn check(_ctx: &Ctx, input: &Input) -> CaseResult {
     }
     export_replacement_mode(&p, &mut out)?;
     import_replacement_mode(&p, &mut out)?;
+    added_import_mode(&p, &mut out)?;
     if out.nontrivial {
         out.sample = Some(json!({"origin": p.origin, "bytes": p.bytes.len(), "labels": out.labels}));
     }
@@ -492,6 +493,81 @@ fn export_replacement_mode(p: &Prepared, out: &mut CaseOut) -> Result<(), Failur
         }
     }
     out.label("mode:after-export-replacement");
+    Ok(())
+}
+
+/// After `add_import_global` / `add_import_table` / `add_import_memory` the
+/// new imports sit at the end of their arenas but are emitted with the other
+/// imports, ahead of every local entity: the local entities of that kind move
+/// up by one index (walrus emits them in arena order, which the plain round
+/// trip modes above establish), and each must carry its name along. The added
+/// imports are unnamed.
+fn added_import_mode(p: &Prepared, out: &mut CaseOut) -> Result<(), Failure> {
+    // baseline: the names of the plain round trip (which the modes above have
+    // checked against the input), so that a name section walrus reads only in
+    // part is not held against the edit
+    let plain = match wal::roundtrip(&p.bytes, wal::Cfg::plain(), false) {
+        Ok(Some(b)) => b,
+        _ => return Ok(()),
+    };
+    let da = match decode(&plain) {
+        Ok(d) => d,
+        Err(_) => return Ok(()),
+    };
+    let na = match decode_names(&plain) {
+        Ok(n) if !(n.globals.is_empty() && n.tables.is_empty() && n.mems.is_empty()) => n,
+        _ => return Ok(()),
+    };
+    let cfg = wal::Cfg::plain().to_config();
+    let mut m = match wal::parse(&p.bytes, &cfg) {
+        Ok(Ok(m)) => m,
+        _ => return Ok(()),
+    };
+    let r = guard("add_import_*", || {
+        m.add_import_global("verif", "g", walrus::ValType::I32, false, false);
+        m.add_import_table("verif", "t", false, 0, None, walrus::RefType::Funcref);
+        m.add_import_memory("verif", "m", false, false, 0, None, None);
+    });
+    if r.is_err() {
+        return Ok(());
+    }
+    let edited = match wal::emit(&mut m) {
+        Ok(b) => b,
+        Err(_) => return Ok(()),
+    };
+    let (db, nb) = match (decode(&edited), decode_names(&edited)) {
+        (Ok(d), Ok(n)) => (d, n),
+        _ => return Ok(()),
+    };
+    let kinds: [(&str, &std::collections::BTreeMap<u32, String>, &std::collections::BTreeMap<u32, String>, u32, u32, u32); 3] = [
+        ("global", &na.globals, &nb.globals, da.imp_globals.len() as u32, da.n_globals(), db.n_globals()),
+        ("table", &na.tables, &nb.tables, da.imp_tables.len() as u32, da.n_tables(), db.n_tables()),
+        ("memory", &na.mems, &nb.mems, da.imp_mems.len() as u32, da.n_mems(), db.n_mems()),
+    ];
+    for (kind, a, b, n_imp, n_in, n_out) in kinds {
+        if n_out != n_in + 1 {
+            continue; // not the shape this mode reasons about
+        }
+        let expect: std::collections::BTreeMap<u32, String> = a
+            .iter()
+            .filter(|(i, _)| **i < n_in)
+            .map(|(i, n)| (if *i < n_imp { *i } else { *i + 1 }, n.clone()))
+            .collect();
+        if expect.is_empty() {
+            continue;
+        }
+        if *b != expect {
+            return Err(Failure::new(
+                format!("{}-name-migrated-or-lost:after-added-import", kind),
+                format!(
+                    "input {} names {:?} ({} imported, {} in all); after add_import_{} the output has {:?}, expected {:?} [{}]",
+                    kind, a, n_imp, n_in, kind, b, expect, p.origin
+                ),
+            ));
+        }
+        out.nontrivial = true;
+        out.label("mode:after-added-import");
+    }
     Ok(())
 }
 
